@@ -25,6 +25,7 @@ import (
 	"io"
 	"net"
 	"net/http"
+	"net/http/httptrace"
 	"strings"
 	"sync"
 	"sync/atomic"
@@ -51,6 +52,16 @@ func phaseCarry(cr *childResult, seed uint64, quick bool) {
 	}
 	for i := 0; i < nReq; i++ {
 		runReqHdrScenario(cr, rng.Fork(), i)
+	}
+	nPipe, nFlow := 4, 3
+	if !quick {
+		nPipe, nFlow = 60, 40
+	}
+	for i := 0; i < nPipe; i++ {
+		runPipeEarly(cr, rng.Fork(), seed, i)
+	}
+	for i := 0; i < nFlow; i++ {
+		runH2Flow(cr, rng.Fork(), seed, i)
 	}
 }
 
@@ -472,4 +483,201 @@ func runReqHdrScenario(cr *childResult, rng *hk.Rand, sidx int) {
 	coq := fmt.Sprintf("H2ReqHdrCase %s %s", coqBigNat(peerMax), hk.CoqList(obs))
 	cr.add(coq, map[string]interface{}{"kind": "h2reqhdr", "peer_max_header_list_size": peerMax, "requests": desc}, coq, sawBig)
 	mu.Unlock()
+}
+
+// ---------- pipeearly (round 8): the response ends while the request body is still being produced ----------
+//
+// Request A streams its body from a pipe that the harness keeps open; the raw origin answers
+// completely after the header section.  A's caller consumes the answer; the write loop is
+// still inside A's body, so A's connection must not be handed to anybody else.  Then request B
+// goes to the same origin.  Oracle: B is not on A's connection while A's body is open (at most
+// one request at a time per connection); both get their own answers.
+
+func runPipeEarly(cr *childResult, rng *hk.Rand, seed uint64, sidx int) {
+	o, err := newWireOrigin(seed + 90 + uint64(sidx))
+	if err != nil {
+		cr.Notes = append(cr.Notes, "carry/pipeearly: "+err.Error())
+		return
+	}
+	defer o.close()
+	tr := &tracker{hostOf: map[string]int{o.addr: 0}, failing: map[int]bool{}}
+	c := req.C().SetDial(tr.dial).SetTimeout(90 * time.Second)
+	t := c.GetTransport()
+	t.MaxConnsPerHost = hk.Pick(rng, []int{0, 2, 3})
+	defer t.CloseIdleConnections()
+	connOf := func(tag string, body io.Reader, kind string) (int, string, error) {
+		conn := -1
+		trace := &httptrace.ClientTrace{GotConn: func(info httptrace.GotConnInfo) {
+			if tc, ok := info.Conn.(*trackedConn); ok {
+				conn = tc.id
+			}
+		}}
+		ctx, cancel := context.WithTimeout(context.Background(), 20*time.Second)
+		defer cancel()
+		rq := c.R().SetContext(httptrace.WithClientTrace(ctx, trace)).SetHeader("X-Tag", tag)
+		method := "GET"
+		if body != nil {
+			method = "POST"
+			rq.SetBody(body)
+		}
+		resp, err := rq.Send(method, "http://"+o.addr+"/?k="+kind)
+		if err != nil || resp.Response == nil {
+			return conn, "", err
+		}
+		if e := resp.Header.Get("X-Tag-Echo"); e != tag || resp.String() != strings.Join(chunksOf(tag, kind), "") {
+			return conn, fmt.Sprintf("tag echo %q body %q", e, resp.String()), nil
+		}
+		return conn, "", nil
+	}
+	tagA := fmt.Sprintf("pe-%d-%d-a", seed, sidx)
+	pr, pw := io.Pipe()
+	go pw.Write([]byte("body-of-" + tagA + "-first-part")) // the rest comes when the harness says so
+	connA, problem, err := connOf(tagA, pr, "pipeearly")
+	if err != nil || problem != "" {
+		pw.CloseWithError(io.ErrClosedPipe)
+		cr.count("carry.pipeearly.first_request_failed")
+		if problem != "" {
+			cr.fail(hk.Failure{Sig: "crosstalk:pipeearly", What: "the caller of the streamed upload did not get its own answer", Input: map[string]interface{}{"tag": tagA}, Got: problem})
+		}
+		return
+	}
+	// the read loop waits at most maxWriteWaitBeforeConnReuse (50 ms) for the write loop before it
+	// decides about the connection; give it four times that (more time cannot make correct code reuse it)
+	time.Sleep(200 * time.Millisecond)
+	reused := false
+	nB := 1 + rng.Intn(3)
+	var desc []interface{}
+	for i := 0; i < nB; i++ {
+		tagB := fmt.Sprintf("pe-%d-%d-b%d", seed, sidx, i)
+		// under the harness's own clock: a request handed a connection whose write loop is
+		// busy with another request's body blocks in the hand-over to that write loop for ever
+		type bres struct {
+			conn    int
+			problem string
+			err     error
+		}
+		bc := make(chan bres, 1)
+		go func() {
+			cn, pb, e := connOf(tagB, nil, "get")
+			bc <- bres{cn, pb, e}
+		}()
+		var connB int
+		var problem string
+		var err error
+		select {
+		case r := <-bc:
+			connB, problem, err = r.conn, r.problem, r.err
+		case <-time.After(10 * time.Second):
+			pw.CloseWithError(io.ErrClosedPipe) // releases the write loop
+			cr.fail(hk.Failure{Sig: "exclusive:pipeearly:blocked", What: "a request sent while another request's body was still being uploaded does not return: it was handed the connection whose write loop is still inside that body",
+				Input: map[string]interface{}{"max_conns_per_host": t.MaxConnsPerHost, "uploading_request": tagA, "connection": connA, "blocked_request": tagB}})
+			coq := "PipeCase WNotYet true"
+			cr.add(coq, map[string]interface{}{"kind": "pipeearly", "connection_reused_while_body_open": true, "blocked_request": tagB}, fmt.Sprintf("%s #%d", coq, sidx), true)
+			return
+		}
+		desc = append(desc, map[string]interface{}{"tag": tagB, "conn": connB})
+		if connB == connA && connA >= 0 {
+			reused = true
+			cr.fail(hk.Failure{Sig: "exclusive:pipeearly", What: "an HTTP/1.1 connection whose previous request is still being written (its body has not ended) was handed to another request",
+				Input: map[string]interface{}{"max_conns_per_host": t.MaxConnsPerHost, "uploading_request": tagA, "connection": connA, "next_requests": desc}})
+		}
+		if problem != "" {
+			cr.fail(hk.Failure{Sig: "crosstalk:pipeearly", What: "a request sent while another request's body was still being uploaded did not get its own answer", Input: map[string]interface{}{"tag": tagB, "next_requests": desc}, Got: problem})
+		}
+		if err != nil && !reused {
+			cr.count("carry.pipeearly.next_request_failed")
+		}
+	}
+	go func() { // nobody may be reading the pipe any more: never block the scenario on it
+		pw.Write([]byte("-second-part"))
+		pw.Close()
+	}()
+	defer pr.Close()
+	cr.count("carry.pipeearly.scenarios")
+	coq := fmt.Sprintf("PipeCase WNotYet %s", hk.CoqBool(reused))
+	cr.add(coq, map[string]interface{}{"kind": "pipeearly", "connection_reused_while_body_open": reused, "next_requests": desc}, fmt.Sprintf("%s #%d", coq, sidx), true)
+}
+
+// ---------- h2flow (round 8): the connection-level receive window is shared by all callers ----------
+//
+// Forced HTTP/2 with a small connection window.  Several response bodies are abandoned with
+// data still buffered (a little is read, then Close) - together far more than the window; then
+// other goroutines send ordinary requests on the same client.  Oracle: they all get their own
+// complete answers (nobody is starved by somebody else's abandoned body).
+
+func runH2Flow(cr *childResult, rng *hk.Rand, seed uint64, sidx int) {
+	o, err := newOrigin(0, seed+95, true)
+	if err != nil {
+		cr.Notes = append(cr.Notes, "carry/h2flow: "+err.Error())
+		return
+	}
+	defer o.srv.Close()
+	const flow = 65535
+	window := flow + 65535 // SetHTTP2ConnectionFlow adds to the protocol's initial 65535
+	c := req.C().EnableInsecureSkipVerify().EnableForceHTTP2().SetHTTP2ConnectionFlow(flow).SetTimeout(25 * time.Second)
+	defer c.GetTransport().CloseIdleConnections()
+	nAbandon := rng.Range(4, 8)
+	var unread []string
+	for i := 0; i < nAbandon; i++ {
+		tag := fmt.Sprintf("fl-%d-%d-x%d", seed, sidx, i)
+		resp, err := c.R().SetHeader("X-Tag", tag).SetHeader("X-Round", "fl").DisableAutoReadResponse().Get("https://" + o.addr + "/?k=big")
+		if err != nil || resp.Response == nil {
+			cr.fail(hk.Failure{Sig: "stall:h2flow:abandon", What: "a request on a connection on which earlier response bodies were closed early did not get its response head within 25 s (connection window not given back?)",
+				Input: map[string]interface{}{"connection_window": window, "abandoned_before": i}, Got: fmt.Sprint(err)})
+			return
+		}
+		stepDone := make(chan struct{})
+		go func() {
+			buf := make([]byte, 100)
+			io.ReadFull(resp.Body, buf)
+			time.Sleep(30 * time.Millisecond) // let the origin fill what the windows allow
+			resp.Body.Close()
+			close(stepDone)
+		}()
+		select {
+		case <-stepDone:
+		case <-time.After(20 * time.Second):
+			cr.fail(hk.Failure{Sig: "stall:h2flow:abandon", What: "the first bytes of a response body do not arrive within 20 s on a connection on which earlier response bodies were closed early with data still buffered (their bytes were never given back to the connection-level receive window)",
+				Input: map[string]interface{}{"connection_window": window, "abandoned_before": i}})
+			coq := fmt.Sprintf("FlowCase %s %s %s false", coqBigNat(window), hk.CoqList(unread), coqBigNat(100))
+			cr.add(coq, map[string]interface{}{"kind": "h2flow", "connection_window": window, "abandoned_bodies": i, "delivered": false}, fmt.Sprintf("%s #%d", coq, sidx), true)
+			return
+		}
+		total := len(strings.Join(chunksOf(tag, "big"), ""))
+		unread = append(unread, coqBigNat(total-100))
+	}
+	// now other callers, at once
+	var wg sync.WaitGroup
+	var mu sync.Mutex
+	delivered := true
+	for g := 0; g < 4; g++ {
+		wg.Add(1)
+		go func(g int) {
+			defer wg.Done()
+			tag := fmt.Sprintf("fl-%d-%d-g%d", seed, sidx, g)
+			problem, _, errored := doTagged(c, "https://"+o.addr, tag, "big", "fl", true)
+			mu.Lock()
+			defer mu.Unlock()
+			if problem != "" {
+				cr.fail(hk.Failure{Sig: "crosstalk:h2flow", What: "a caller did not get its own response after other callers' bodies were closed early", Input: map[string]interface{}{"tag": tag}, Got: problem})
+			}
+			if errored {
+				delivered = false
+				cr.fail(hk.Failure{Sig: "stall:h2flow", What: "after response bodies of OTHER requests were closed early with data still buffered, a request on the shared HTTP/2 connection no longer completes (the bytes of the abandoned bodies were never given back to the connection-level receive window)",
+					Input: map[string]interface{}{"connection_window": window, "abandoned_bodies": nAbandon, "tag": tag}})
+			}
+		}(g)
+	}
+	if !waitOrStall(&wg, 100*time.Second) {
+		stallExit(cr, hk.Failure{Sig: "stall:h2flow", What: "callers are still blocked after 100 s", Input: map[string]interface{}{"scenario": sidx}})
+	}
+	cr.count("carry.h2flow.scenarios")
+	next := len(strings.Join(chunksOf("fl-x", "big"), ""))
+	// the model: each abandoned body had (at most) everything but the first 100 bytes buffered;
+	// capped by the window, since the peer respects it
+	for i := range unread {
+		_ = i
+	}
+	coq := fmt.Sprintf("FlowCase %s %s %s %s", coqBigNat(window), hk.CoqList(unread), coqBigNat(next), hk.CoqBool(delivered))
+	cr.add(coq, map[string]interface{}{"kind": "h2flow", "connection_window": window, "abandoned_bodies": nAbandon, "delivered": delivered}, fmt.Sprintf("%s #%d", coq, sidx), true)
 }
